@@ -455,7 +455,7 @@ m('cd_sk_deserialize_other_error_value', 'benign', 'C12', SK,
 m('cd_sk_deserialize_other_value', 'harmful', 'C12', SK,
   '        Self::from_scalar(SerializableScalar::deserialize(bytes)?.0)', '        Self::from_scalar(SerializableScalar::deserialize(bytes)?.0 + <<C::Group as Group>::Field as Field>::one())', 'decoded key is off by one')
 m('cd_id_zero_other_error_value', 'benign', 'C12', IDF,
-  '            Err(FieldError::InvalidZeroScalar.into())', '            Err(Error::MalformedIdentifier)', 'zero identifier refused with another error value')
+  '            Err(FieldError::InvalidZeroScalar.into())\n        } else {\n            Ok(Self(SerializableScalar(scalar)))', '            Err(Error::MalformedIdentifier)\n        } else {\n            Ok(Self(SerializableScalar(scalar)))', 'zero identifier refused with another error value')
 m('cd_id_zero_accepted', 'harmful', 'C12', IDF,
   '        if scalar == <<C::Group as Group>::Field>::zero() {\n            Err(FieldError::InvalidZeroScalar.into())\n        } else {\n            Ok(Self(SerializableScalar(scalar)))\n        }', '        Ok(Self(SerializableScalar(scalar)))',
   'zero identifier accepted')
